@@ -121,6 +121,9 @@ func genC04(r *Rand, tier string) *Case {
 		c.Server.TLS = "empty"
 	}
 	kind := r.Intn(10)
+	if r.Chance(1, 400) {
+		return c04Churn(r, r.PickInt(70, 130, 260, 1100), r.Pick("cancel", "ssl-cancel", "junk", "eof", "cut-startup", "mixed"))
+	}
 	if r.Chance(1, 300) {
 		// (only message types that are silent in that phase: the harness keeps
 		// every output byte and write event, which would count as growth)
@@ -422,8 +425,43 @@ func c04Flood(phase string, t byte, n int64, limit int) *Case {
 	return withBystander(c)
 }
 
+// c04Churn: n short connections that never become a session (CancelRequest,
+// SSLRequest + CancelRequest, junk, immediate EOF, truncated startup packet),
+// served one after the other; the bystander that follows must still be served
+// (whatever the server accounts per connection has to be handed back on every
+// exit path).
+func c04Churn(r *Rand, n int, kind string) *Case {
+	c := &Case{Variant: "connection-churn-" + kind, Server: ServerCfg{Limit: 4096}, Programs: map[string]*Program{}}
+	for i := 0; i < n; i++ {
+		k := kind
+		if k == "mixed" {
+			k = r.Pick("cancel", "ssl-cancel", "junk", "eof", "cut-startup")
+		}
+		var steps []Step
+		switch k {
+		case "cancel":
+			steps = []Step{{Msgs: []pgwire.FMsg{{K: "cancel"}}}}
+		case "ssl-cancel":
+			steps = []Step{{Msgs: []pgwire.FMsg{{K: "ssl"}}}, {Msgs: []pgwire.FMsg{{K: "cancel"}}}}
+		case "junk":
+			steps = []Step{{Msgs: []pgwire.FMsg{{K: "raw", Data: []byte("GET / HTTP/1.0\r\n\r\n")}}}}
+		case "eof":
+			steps = []Step{{Msgs: []pgwire.FMsg{{K: "raw", Data: nil}}}}
+		case "cut-startup":
+			su := startupMsg("u", "d")
+			su.Cut = intp(6)
+			steps = []Step{{Msgs: []pgwire.FMsg{su}}}
+		}
+		c.Conns = append(c.Conns, ConnCase{Steps: steps})
+	}
+	return withBystander(c)
+}
+
 func c04Fixed(tier string) []*Case {
 	out := c04Corpus()
+	for _, kind := range []string{"cancel", "ssl-cancel", "junk", "eof", "cut-startup", "mixed"} {
+		out = append(out, c04Churn(NewRand(4242), 300, kind))
+	}
 	for _, f := range []struct {
 		phase string
 		t     byte
